@@ -1,2 +1,219 @@
+//! C33: replay TLC-generated symbols / ref names (spec/MC_RefNames) through
+//! the real jj code.  `parse_git_ref` is public.  `to_git_ref_name` and
+//! `validate_remote_name` are private, so they are observed through the
+//! public operations that call them first: `git::export_refs` on a Git-backed
+//! test repo (the ref it records for a single bookmark/tag is
+//! `to_git_ref_name`'s answer; `InvalidGitName` is its `None`) and
+//! `git::add_remote` (a `RemoteName` error is `validate_remote_name`'s Err).
+//! See notes/fn-hook.diff for the direct wrappers.
+use std::sync::Arc;
+
+use jj_lib::backend::CommitId;
+use jj_lib::git;
+use jj_lib::git::FailedRefExportReason;
+use jj_lib::git::GitRefKind;
+use jj_lib::git::GitRemoteManagementError;
+use jj_lib::op_store::RefTarget;
+use jj_lib::op_store::RemoteRef;
+use jj_lib::op_store::RemoteRefState;
+use jj_lib::ref_name::GitRefName;
+use jj_lib::ref_name::RefName;
+use jj_lib::ref_name::RemoteName;
+use jj_lib::ref_name::RemoteRefSymbol;
+use jj_lib::repo::ReadonlyRepo;
+use jj_lib::repo::Repo as _;
 use jjconf::util::Opts;
-pub fn run(_opts: &Opts) -> Result<(), String> { Err("todo".into()) }
+use jjconf::util::Out;
+use jjconf::util::catch;
+use jjconf::util::read_ndjson;
+use pollster::FutureExt as _;
+use serde_json::Value;
+use serde_json::json;
+use testutils::TestRepo;
+use testutils::TestRepoBackend;
+use testutils::write_random_commit;
+
+use crate::matchers::comps_of;
+
+struct Env {
+    _test_repo: TestRepo,
+    repo: Arc<ReadonlyRepo>,
+    commit: CommitId,
+}
+
+impl Env {
+    fn new() -> Result<Self, String> {
+        let test_repo = TestRepo::init_with_backend(TestRepoBackend::Git);
+        let mut tx = test_repo.repo.start_transaction();
+        let commit = write_random_commit(tx.repo_mut());
+        let repo = tx.commit("setup").block_on().map_err(|e| e.to_string())?;
+        Ok(Self {
+            _test_repo: test_repo,
+            repo,
+            commit: commit.id().clone(),
+        })
+    }
+}
+
+fn split(s: &str) -> Vec<String> {
+    s.split('/').map(|c| c.to_string()).collect()
+}
+
+fn kind_str(k: GitRefKind) -> &'static str {
+    match k {
+        GitRefKind::Bookmark => "bookmark",
+        GitRefKind::Tag => "tag",
+    }
+}
+
+fn sym_json(p: Option<(GitRefKind, RemoteRefSymbol<'_>)>) -> Value {
+    match p {
+        None => json!({"some": false}),
+        Some((k, s)) => json!({"some": true, "kind": kind_str(k),
+            "name": split(s.name.as_str()), "remote": split(s.remote.as_str())}),
+    }
+}
+
+/// What `to_git_ref_name(kind, name@remote)` answers, observed through export_refs.
+/// Returns {"obs": bool, "some": bool, "ref": [...]} (+ "why" when not observable).
+fn observe_to_ref(env: &Env, kind: &str, name: &str, remote: &str) -> Result<Value, String> {
+    let unobservable = |why: &str| Ok(json!({"obs": false, "some": false, "ref": [], "why": why}));
+    let mut tx = env.repo.start_transaction();
+    let target = RefTarget::normal(env.commit.clone());
+    let set = |mut_repo: &mut jj_lib::repo::MutableRepo, target: RefTarget| -> bool {
+        let symbol = RemoteRefSymbol {
+            name: RefName::new(name),
+            remote: RemoteName::new(remote),
+        };
+        match (kind, remote == "git") {
+            ("bookmark", true) => mut_repo.set_local_bookmark_target(RefName::new(name), target),
+            ("bookmark", false) => mut_repo.set_remote_bookmark(
+                symbol,
+                RemoteRef {
+                    target,
+                    state: RemoteRefState::Tracked,
+                },
+            ),
+            ("tag", true) => mut_repo.set_local_tag_target(RefName::new(name), target),
+            _ => return false, // remote tags are never exported: Git has no such concept
+        }
+        true
+    };
+    if !set(tx.repo_mut(), target) {
+        return unobservable("remote tags are not exported");
+    }
+    let stats = git::export_refs(tx.repo_mut()).map_err(|e| format!("export_refs: {e}"))?;
+    let failed: Vec<&FailedRefExportReason> = stats
+        .failed_bookmarks
+        .iter()
+        .chain(&stats.failed_tags)
+        .map(|(_, reason)| reason)
+        .collect();
+    let refs: Vec<String> = tx.repo().view().git_refs().keys().map(|k| k.as_str().to_string()).collect();
+    let obs = match (failed.as_slice(), refs.as_slice()) {
+        ([], [r]) => json!({"obs": true, "some": true, "ref": split(r)}),
+        ([FailedRefExportReason::InvalidGitName], []) => json!({"obs": true, "some": false, "ref": []}),
+        ([reason], []) => json!({"obs": false, "some": false, "ref": [], "why": format!("{reason:?}")}),
+        _ => json!({"obs": false, "some": false, "ref": [], "why": format!("failed={failed:?} refs={refs:?}")}),
+    };
+    // undo the on-disk ref so that the next case starts clean
+    set(tx.repo_mut(), RefTarget::absent());
+    let _ = git::export_refs(tx.repo_mut()).map_err(|e| format!("export_refs(cleanup): {e}"))?;
+    if !tx.repo().view().git_refs().is_empty() {
+        return Err(format!("cleanup left git refs for {kind} {name}@{remote}"));
+    }
+    Ok(obs)
+}
+
+fn opt_ref(r: &Value) -> Value {
+    if r["some"].as_bool() == Some(true) {
+        json!({"some": true, "ref": r["ref"]})
+    } else {
+        json!({"some": false})
+    }
+}
+
+fn observe_remote(env: &Env, remote: &str) -> Result<Value, String> {
+    let mut tx = env.repo.start_transaction();
+    let name = RemoteName::new(remote);
+    match git::add_remote(tx.repo_mut(), name, "https://example.invalid/repo.git", None) {
+        Ok(()) => {
+            // the remote is now in the on-disk Git config: the caller drops this scratch repo
+            Ok(json!({"obs": true, "valid": true, "dirty": true}))
+        }
+        Err(GitRemoteManagementError::RemoteName(e)) => Ok(json!({"obs": true, "valid": false, "why": e.to_string()})),
+        Err(e) => Ok(json!({"obs": false, "valid": false, "why": e.to_string()})),
+    }
+}
+
+fn one(env: &Env, case: &Value) -> Result<Value, String> {
+    match case["t"].as_str().unwrap_or("?") {
+        "sym" => {
+            let s = &case["s"];
+            let kind = s["kind"].as_str().unwrap_or("?");
+            let (name, remote) = (comps_of(&s["name"]).join("/"), comps_of(&s["remote"]).join("/"));
+            let r = observe_to_ref(env, kind, &name, &remote)?;
+            let back = if r["some"].as_bool() == Some(true) {
+                let text = comps_of(&r["ref"]).join("/");
+                sym_json(git::parse_git_ref(GitRefName::new(&text)))
+            } else {
+                json!({"some": false})
+            };
+            Ok(json!({"op":"export","s":s,"obs":r["obs"],"why":r.get("why").cloned().unwrap_or(json!("")),
+                "ref":opt_ref(&r),"back":back}))
+        }
+        "ref" => {
+            let text = comps_of(&case["r"]).join("/");
+            let gref = GitRefName::new(&text);
+            let parsed = git::parse_git_ref(gref);
+            let sym = sym_json(parsed);
+            let r2 = match parsed {
+                Some((k, s)) => observe_to_ref(env, kind_str(k), s.name.as_str(), s.remote.as_str())?,
+                None => json!({"obs": true, "some": false, "ref": []}),
+            };
+            Ok(json!({"op":"import","r":case["r"],"sym":sym,"obs":r2["obs"],
+                "why":r2.get("why").cloned().unwrap_or(json!("")),"ref2":opt_ref(&r2)}))
+        }
+        "remote" => {
+            let remote = comps_of(&case["r"]).join("/");
+            let r = observe_remote(env, &remote)?;
+            Ok(json!({"op":"remote","r":case["r"],"obs":r["obs"],"valid":r["valid"],
+                "dirty":r.get("dirty").cloned().unwrap_or(json!(false)),
+                "why":r.get("why").cloned().unwrap_or(json!(""))}))
+        }
+        t => Err(format!("unknown case type {t}")),
+    }
+}
+
+pub fn run(opts: &Opts) -> Result<(), String> {
+    jjconf::util::quiet_panics();
+    let cases = read_ndjson(&opts.str("cases", "cases.ndjson"))?;
+    let mut out = Out::create(&opts.str("out", "trace.ndjson"))?;
+    let mut env = Env::new()?;
+    for c in &cases {
+        let r = {
+            let env_ref = std::panic::AssertUnwindSafe(&env);
+            let cc = c.clone();
+            catch(move || one(&env_ref, &cc))
+        };
+        match r {
+            Ok(Ok(v)) => {
+                out.emit(&v);
+                if v["dirty"].as_bool() == Some(true) {
+                    env = Env::new()?;
+                }
+            }
+            Ok(Err(e)) => {
+                // the scratch repo is in an unknown state: report and start over
+                out.emit(&json!({"op":"skipped","case":c,"why":e}));
+                env = Env::new()?;
+            }
+            Err(msg) => {
+                out.emit(&json!({"op":"panic","case":c,"msg":msg}));
+                env = Env::new()?;
+            }
+        }
+    }
+    out.finish();
+    Ok(())
+}
